@@ -27,6 +27,12 @@ const pageSize = 4096
 // guarded returns a copy of b inside an anonymous mapping, flush against a PROT_NONE page at its end
 // (atEnd) or at its start. The mapping is leaked on purpose (bitmaps may alias it).
 func guarded(b []byte, atEnd bool, align int) []byte {
+	out, _ := guardedMap(b, atEnd, align)
+	return out
+}
+
+// guardedMap also returns the whole mapping, so that callers that know nothing refers to it any more can unmap it
+func guardedMap(b []byte, atEnd bool, align int) ([]byte, []byte) {
 	n := len(b)
 	inner := ((n + align + pageSize - 1) / pageSize) * pageSize
 	if inner == 0 {
@@ -46,7 +52,7 @@ func guarded(b []byte, atEnd bool, align int) []byte {
 	copy(out, b)
 	syscall.Mprotect(m[:pageSize], syscall.PROT_NONE)
 	syscall.Mprotect(m[pageSize+inner:], syscall.PROT_NONE)
-	return out
+	return out, m
 }
 
 type decodeOutcome struct {
@@ -450,8 +456,9 @@ func cmdFuzzDec(args []string) {
 		cv.Kinds[kind]++
 		// decode through every applicable entry point; adopt the first valid result
 		type attempt struct {
-			entry int
-			o     decodeOutcome
+			entry  int
+			o      decodeOutcome
+			prefix bool // this attempt was given a proper prefix of a valid stream (all-prefixes sweep)
 		}
 		var atts []attempt
 		var adopted *roaring.Bitmap
@@ -472,10 +479,32 @@ func cmdFuzzDec(args []string) {
 				in = guarded(data, atEnd, 32)
 			}
 			o := decodeOnce(en, in, r.Intn(8))
-			atts = append(atts, attempt{en, o})
+			atts = append(atts, attempt{en, o, false})
 			if o.Outcome == "ok" && o.Valid && adopted == nil && r.Intn(2) == 0 {
 				adopted, adoptedEntry = o.bm, en
 			}
+		}
+		// every truncation position of a small valid stream, through every entry point: only anomalies are logged
+		// (a panic, a hang, or a proper prefix that is accepted)
+		if pb, _ := src.ToBytes(); !frozen && len(pb) <= 1500 && r.Intn(4) == 0 {
+			for k := 0; k < len(pb); k++ {
+				for _, en := range []int{0, 1, 2, 3, 4, 5} {
+					in := append([]byte(nil), pb[:k]...)
+					var mapping []byte
+					if en == 2 || en == 3 {
+						in, mapping = guardedMap(pb[:k], true, 32)
+					}
+					o := decodeOnce(en, in, k%8)
+					if o.Outcome == "err" && mapping != nil {
+						syscall.Munmap(mapping) // rejected: nothing refers to the input
+					}
+					if o.Outcome != "err" {
+						o.Msg = fmt.Sprintf("prefix of %d/%d bytes: %s", k, len(pb), o.Msg)
+						atts = append(atts, attempt{en, o, true})
+					}
+				}
+			}
+			cv.Kinds["all-prefixes"]++
 		}
 		// universe: from the adopted set (and a partner) or trivial
 		var u *Universe
@@ -509,7 +538,7 @@ func cmdFuzzDec(args []string) {
 		e.begin()
 		for _, a := range atts {
 			ev := e.rawEvent(Call{Op: "Decode", V: a.entry, Rcp: kind})
-			ev.Ret = map[string]any{"outcome": a.o.Outcome, "msg": a.o.Msg, "valid": a.o.Valid, "prefix": prefix && a.entry != 6, "entry": entryNames[a.entry]}
+			ev.Ret = map[string]any{"outcome": a.o.Outcome, "msg": a.o.Msg, "valid": a.o.Valid, "prefix": (prefix || a.prefix) && a.entry != 6, "entry": entryNames[a.entry]}
 			e.emit(ev)
 			e.events++
 			cv.Ops["Decode"]++
